@@ -94,7 +94,7 @@ func firstDiff(a, b string) string {
 
 func c13EquivConfig(u *universe) alphabetConfig {
 	return alphabetConfig{Repos: u.Repos, BadRepo: true, Chunked: true, MaxUploads: 1, MaxUpload: 2,
-		Manifests: []int{0, 1, 2}, Blobs: []int{1, 2}, Deletes: true, Mounts: true, UntaggedToo: false, Tags: []string{"t"},
+		Manifests: []int{0, 1, 2}, Blobs: []int{1, 2}, Deletes: true, Mounts: true, UntaggedToo: false, Tags: []string{"t"}, ReadsOp: true,
 		BadNames: []string{"../other", "..", ".", "r/../../other", "../foo-x/r", "r/", "r//x", "/r", "../fooey/x"}}
 }
 
